@@ -290,8 +290,9 @@ func (g *codecGen) add(c string, bucket string) {
 	g.dist[bucket]++
 }
 
-func (g *codecGen) msgCases(kind string) {
-	v := g.value(kind)
+func (g *codecGen) msgCases(kind string) { g.msgCasesOf(kind, g.value(kind)) }
+
+func (g *codecGen) msgCasesOf(kind string, v interface{}) {
 	b, err := goEncode(v)
 	if err != nil {
 		g.panics = append(g.panics, fmt.Sprintf("encode %s %s: %v", kind, coqMsg(v), err))
@@ -315,6 +316,9 @@ func (g *codecGen) msgCases(kind string) {
 		for i := 0; i < len(b); i++ {
 			cuts = append(cuts, i)
 		}
+	} else if len(b) > 5000 {
+		// large byte strings (read in pieces by some readers): few cuts, inside and at the end of the data
+		cuts = []int{21, len(b) - 1, len(b) / 2, 5000 + g.rnd.Intn(len(b)-5000)}
 	} else {
 		cuts = []int{0, 1, 7, 8, 9, 16, 17, 20, 21, len(b) - 1, len(b) - 2, len(b) / 2}
 		for i := 0; i < 8; i++ {
@@ -580,6 +584,18 @@ func codecMain(args []string) int {
 		}
 		g.taskCases()
 		g.valueCases(tmp)
+	}
+	// large payloads, around the sizes at which readers switch strategy (powers of two) and beyond
+	sizes := []int{16385 + g.rnd.Intn(600)}
+	if g.big {
+		sizes = append(sizes, 4096, 16384, 33000+g.rnd.Intn(3000))
+	}
+	for _, n := range sizes {
+		d := make([]byte, n)
+		for i := range d {
+			d[i] = byte(g.rnd.Intn(256))
+		}
+		g.msgCasesOf("KEntry", &entry{index: g.u64(), term: g.u64(), typ: entryUpdate, data: d})
 	}
 	// shard into files of <= 1500 cases
 	const shard = 1500
